@@ -604,11 +604,16 @@ def _run(ctx):
         seam.__enter__()
         ctx._seam = seam
         owned = {}
-        rd = files.open_reader(pb, rs, owned)
-        readers.append(heap.add(rd, "reader", f"reader {rs['cls']} on {fs['kind']}"))
-        for k, v in owned.items():
-            if isinstance(v, (list, dict, np.ndarray)):
-                heap.add(v, "arg", f"constructor argument {k} of the reader")
+        try:
+            rd = files.open_reader(pb, rs, owned)
+        except Exception as e:          # not C14's business (C11 reports it); go on without a reader
+            ctx.probe("reader_construction_failed")
+            rd = None
+        if rd is not None:
+            readers.append(heap.add(rd, "reader", f"reader {rs['cls']} on {fs['kind']}"))
+            for k, v in owned.items():
+                if isinstance(v, (list, dict, np.ndarray)):
+                    heap.add(v, "arg", f"constructor argument {k} of the reader")
         specs.append({"reader": rs})
         ctx.probe("reader_on_heap")
     ctx.log("world", specs)
